@@ -1094,6 +1094,10 @@ func runRespCase(c RespCase, seed int64) RespEv {
 		}
 	}
 	// a codec the user registered for a media type of their own, next to the built-in ones
+	if c.ID%5 == 2 && c.Kind != "upecho" {
+		// a mux that restricts what it receives (uploads) says nothing about what it may send: replies of any size go out
+		cfgOpt = append(cfgOpt, larking.MaxReceiveMessageSizeOption(256))
+	}
 	mux, err := larking.NewMux(append([]larking.MuxOption{larking.FilesOption(files), larking.CodecOption("application/x-verif", larking.CodecJSON{})}, cfgOpt...)...)
 	if err != nil {
 		ev.Crash = "setup: " + err.Error()
@@ -1177,10 +1181,19 @@ func runRespCase(c RespCase, seed int64) RespEv {
 	if c.Kind == "upecho" {
 		reqBody = rawData
 	}
+	// one request in three uploads its body gzip-compressed: how the reply is encoded is the business of Accept-Encoding
+	// alone
+	gzUpload := c.ID%3 == 1 && !foreign && c.Kind != "upecho"
+	if gzUpload {
+		reqBody = gz(reqBody)
+	}
 	req := httptest.NewRequest("POST", "http://verif.test/resp/x", bytes.NewReader(reqBody))
 	req.ContentLength = int64(len(reqBody))
 	if foreign {
 		req = httptest.NewRequest("GET", "http://verif.test/resp/x", nil)
+	}
+	if gzUpload {
+		req.Header.Set("Content-Encoding", "gzip")
 	}
 	if c.ReqCT != "" {
 		req.Header.Set("Content-Type", c.ReqCT)
